@@ -488,3 +488,14 @@ H("C02", "sqpack_data", "c02d_pipeline_witness", expect="witness-fail", unwind=2
 
 # slot index conversion is total on 0..13 (a record with an item in any on-disk slot must not make the reader panic)
 H("C17", "gearsets", "c09_slot_type_tables", unwind=4, bounds="all usize: GearSlotType::try_from is Ok exactly for 0..13", encodes=["gearsets::GearSlotType::try_from(usize)"])
+
+# C03: command decoding
+H("C03", "patch", "c03_sqpk_add_data_fields", tier="thorough", unwind=140, timeout=1800, bounds="SQPK add-data with one 128-byte unit of payload (shape), all other header bytes and all payload bytes symbolic", encodes=["patch::SqpkAddData (binrw)"], cbmc_args=FS256)
+H("C03", "patch", "c03_sqpk_delete_data_fields", unwind=10, timeout=300, bounds="all 23-byte delete/expand commands", encodes=["patch::SqpkDeleteData (binrw)"])
+for n in ("win32", "ps3", "ps4"):
+    H("C03", "patch", "c03_sqpk_target_info_" + n, unwind=10, timeout=300, bounds="target info with platform code " + n + " (concrete, big-endian u16), region Global, all other bytes symbolic", encodes=["patch::SqpkTargetInfo (binrw)"], cbmc_args=FS256)
+H("C03", "patch", "c03_sqpk_index_and_patch_info", unwind=10, timeout=300, bounds="all 27-byte index commands (command letter concrete) / 11-byte patch infos", encodes=["patch::SqpkIndex", "patch::SqpkPatchInfo"])
+for n in ("add", "delete"):
+    H("C03", "patch", "c03_sqpk_file_operation_" + n, tier="thorough", unwind=12, timeout=1800, bounds="file operation '" + n + "', path length 8 (concrete path), all offsets / sizes / expansion ids symbolic", encodes=["patch::SqpkFileOperationData (binrw)", "common_file_operations::read_string"])
+H("C03", "patch", "c03_chunk_framing_eof_and_apply", tier="thorough", unwind=12, timeout=1800, bounds="EOF_ chunk (no CRC) and APLY chunk (CRC): all size / value / CRC bytes", encodes=["patch::PatchChunk (binrw)", "patch::ChunkType"])
+H("C03", "patch", "c03p_pipeline_witness", expect="witness-fail", unwind=10, bounds="assert(false) twin")
